@@ -1,7 +1,7 @@
 (* C10 — class instances carry the exact span of input they were parsed from. *)
 From Coq Require Import List Arith Bool ZArith.
 Import ListNotations.
-Require Import ExcerptModel Model Spec Refine Within Entry Finalize.
+Require Import ExcerptModel Model Spec Refine Within SpanSpec Ordered Entry Finalize.
 
 (* exactness: the (start, end) pair the generated code stores on an instance is
    the one the specification assigns (class_spec: start = where the class began,
@@ -42,3 +42,40 @@ Theorem C10_finalised_span : forall t c fs s e, s < e -> e <= length t ->
                   /\ line_col t s = Some a /\ line_col t (e - 1) = Some b.
 Proof. exact finalize_span. Qed.
 Print Assumptions C10_finalised_span.
+
+(* sibling order: the value of every match passes the judge SpanSpec.spans_ordered (the one the harness runs on the
+   implementation's results), for any plain expression, nesting and input *)
+Theorem C10_spans_ordered :
+  forall (g funs : list (list nat * expr)) (ignored : option nat) (t : list nat) (rx : nat -> nat -> option nat),
+    (forall id p q, rx id p = Some q -> p <= q <= length t) ->
+    (forall r b, nth_error g r = Some ([], b) -> plain b) ->
+    forall n e E p v q, plain e -> p <= length t ->
+      peg g funs ignored t rx n E e p = Match v q -> spans_ordered p q v = true.
+Proof. exact peg_spans_ordered. Qed.
+Print Assumptions C10_spans_ordered.
+
+(* what passing the judge means: all spans lie between the start of the match and its end ... *)
+Theorem C10_judge_spans_inside : forall lo hi v, spans_ordered lo hi v = true -> Forall (inside lo hi) (spans v).
+Proof. exact judge_spans_inside. Qed.
+Print Assumptions C10_judge_spans_inside.
+
+(* ... successive list elements are disjoint and in input order ... *)
+Theorem C10_list_elements_in_order : forall lo hi l, spans_ordered lo hi (VList l) = true ->
+  forall l1 a rest, l = l1 ++ a :: rest -> forall b sa sb, In b rest -> In sa (spans a) -> In sb (spans b) -> snd sa <= fst sb.
+Proof. exact judge_list_elements_in_order. Qed.
+Print Assumptions C10_list_elements_in_order.
+
+(* ... and the fields of an instance lie inside its span, disjoint and in input order *)
+Theorem C10_fields_nested_and_ordered : forall lo hi c fs s e, spans_ordered lo hi (VObj c fs (s, e)) = true ->
+  lo <= s /\ s <= e /\ e <= hi /\ Forall (inside s e) (spansl fs) /\
+  forall l1 a rest, fs = l1 ++ a :: rest -> forall b sa sb, In b rest -> In sa (spans a) -> In sb (spans b) -> snd sa <= fst sb.
+Proof. exact judge_fields_nested_and_ordered. Qed.
+Print Assumptions C10_fields_nested_and_ordered.
+
+(* the judge is not vacuous: it accepts siblings in input order and rejects the same siblings swapped or overlapping *)
+Example C10_judge_discriminates :
+  spans_ordered 0 4 (VList [VObj 1 [VStr [97]] (0, 2); VObj 1 [VStr [98]] (2, 4)]) = true /\
+  spans_ordered 0 4 (VList [VObj 1 [VStr [98]] (2, 4); VObj 1 [VStr [97]] (0, 2)]) = false /\
+  spans_ordered 0 4 (VList [VObj 1 [] (0, 3); VObj 1 [] (2, 4)]) = false /\
+  spans_ordered 0 4 (VObj 2 [VObj 1 [] (0, 5)] (0, 4)) = false.
+Proof. vm_compute. auto. Qed.
